@@ -310,7 +310,10 @@ impl BuiltInFunction {
                         if let ReturnValue::Value(Primitive::Bool(true)) = return_value {
                             let underlying = self.underlying.0.borrow();
                             let this_index: usize = (self.index.get() - 1).try_into()?;
-                            result.push(underlying[this_index].clone());
+                            let kept = underlying.get(this_index).context(
+                                "the list became shorter while its elements were being visited",
+                            )?;
+                            result.push(kept.clone());
                         }
 
                         Ok(<i32 as TryInto<usize>>::try_into(self.index.get())?
